@@ -4,3 +4,70 @@
 #![allow(clippy::all, clippy::pedantic)]
 
 // wrappers for the srv property group
+
+use crate::identifiers::ReferenceId;
+use crate::keyset::{DecodedServerCookie, KeySet};
+use crate::nts::AeadAlgorithm;
+use crate::packet::{AesSivCmac256, AesSivCmac512, Cipher};
+
+/// `ReferenceId::from_int` / `to_bytes` are `pub(crate)`.
+pub fn refid_from_u32(x: u32) -> ReferenceId {
+    ReferenceId::from_int(x)
+}
+pub fn refid_to_u32(r: ReferenceId) -> u32 {
+    u32::from_be_bytes(r.to_bytes())
+}
+
+/// A cipher object of the crate for AEAD algorithm 15 (AES-SIV-CMAC-256, 32-byte key) or
+/// 17 (AES-SIV-CMAC-512, 64-byte key).
+pub fn make_cipher(alg: u16, key: &[u8]) -> Option<Box<dyn Cipher>> {
+    match alg {
+        15 => AesSivCmac256::try_from(key).ok().map(|c| Box::new(c) as Box<dyn Cipher>),
+        17 => AesSivCmac512::try_from(key.iter().copied()).ok().map(|c| Box::new(c) as Box<dyn Cipher>),
+        _ => None,
+    }
+}
+
+/// `DecodedServerCookie::algorithm` is `pub(crate)`: build one from plain bytes.
+pub fn make_cookie(alg: u16, s2c: &[u8], c2s: &[u8]) -> Option<DecodedServerCookie> {
+    Some(DecodedServerCookie {
+        algorithm: AeadAlgorithm::from(alg),
+        s2c: make_cipher(alg, s2c)?,
+        c2s: make_cipher(alg, c2s)?,
+    })
+}
+
+/// (algorithm id, s2c key bytes, c2s key bytes)
+pub fn cookie_parts(c: &DecodedServerCookie) -> (u16, Vec<u8>, Vec<u8>) {
+    (u16::from(c.algorithm), c.s2c.key_bytes().to_vec(), c.c2s.key_bytes().to_vec())
+}
+
+/// `KeySet::encode_cookie` / `decode_cookie` are `pub(crate)`.
+pub fn encode_cookie(ks: &KeySet, c: &DecodedServerCookie) -> Vec<u8> {
+    ks.encode_cookie(c)
+}
+pub fn decode_cookie(ks: &KeySet, cookie: &[u8]) -> Option<(u16, Vec<u8>, Vec<u8>)> {
+    ks.decode_cookie(cookie).ok().map(|c| cookie_parts(&c))
+}
+
+/// AES-SIV straight from the `aes-siv` dependency (not through the crate's `Cipher`
+/// wrappers) with a caller-chosen nonce: the harness builds NTS authenticator fields
+/// and opens server replies with these.
+#[cfg(feature = "rustcrypto")]
+pub fn siv_encrypt(alg: u16, key: &[u8], nonce: &[u8], aad: &[u8], plaintext: &[u8]) -> Option<Vec<u8>> {
+    use aes_siv::{KeyInit, siv::Aes128Siv, siv::Aes256Siv};
+    match alg {
+        15 => Aes128Siv::new_from_slice(key).ok()?.encrypt([aad, nonce], plaintext).ok(),
+        17 => Aes256Siv::new_from_slice(key).ok()?.encrypt([aad, nonce], plaintext).ok(),
+        _ => None,
+    }
+}
+#[cfg(feature = "rustcrypto")]
+pub fn siv_decrypt(alg: u16, key: &[u8], nonce: &[u8], aad: &[u8], ciphertext: &[u8]) -> Option<Vec<u8>> {
+    use aes_siv::{KeyInit, siv::Aes128Siv, siv::Aes256Siv};
+    match alg {
+        15 => Aes128Siv::new_from_slice(key).ok()?.decrypt([aad, nonce], ciphertext).ok(),
+        17 => Aes256Siv::new_from_slice(key).ok()?.decrypt([aad, nonce], ciphertext).ok(),
+        _ => None,
+    }
+}
